@@ -283,8 +283,8 @@ def rule_bounds(ck):
             if not reaches and isinstance(tgt, ast.Name):
                 for m in cfg.nodes:
                     if m.kind == "stmt" and isinstance(m.stmt, ast.Assign) and isinstance(m.stmt.targets[0], ast.Subscript) and dotted(m.stmt.targets[0].value) == "allowable_pilots" \
-                            and n in rl.defs_at(m, tgt.id) and any(isinstance(x, ast.Name) and x.id == tgt.id for x in ast.walk(m.stmt.value)):
-                        reaches = True
+                            and any(d_ is n for _nm, d_ in rl.used_defs(m.stmt.value, m)):
+                        reaches = True          # (through any chain of local re-definitions: `p = p[lb <= p]; p = p[p <= ub]; levels[i] = p`)
             ck.require(reaches, "C07.R2", rr, n.stmt, ok="the filtered levels are stored back for the station", bad="the filtered level list is never stored back into allowable_pilots", sink=f"rr:filter:{k}:stored")
     # continuous grid spans [min rate, max rate]
     grids = [c for n, c in calls_in(rl, "arange")]
